@@ -60,6 +60,25 @@ def success_goals(fn):
     return [b for b, k, t in paths.ret_assigns(fn) if k in ('ok', 'call', 'other')]
 
 
+def mark_helper(F, g, memo={}):
+    """when every success path of g puts Key::updated(self.index, <param p>): p (1-based local), else None"""
+    if g.path in memo:
+        return memo[g.path]
+    memo[g.path] = None
+    puts = []
+    for (_f, c, op, w, k) in db_ops(F, [g]):
+        if op in ('put', 'put_with_flags') and k is not None:
+            ki = key_info(c.arg_term(k))
+            if ki and ki[0] == 'updated' and strip(ki[2])[0] == 'arg' and strip(ki[1])[0] == 'field' and strip(ki[1])[2] == 'index':
+                puts.append((c, strip(ki[2])[1]))
+    writes_items = any(w and k is not None and (key_info(c.arg_term(k)) or (None,))[0] == 'item' for (_f, c, op, w, k) in db_ops(F, [g]))
+    if len(puts) == 1 and not writes_items:
+        goals = [b for b, k, t in paths.ret_assigns(g) if k in ('ok', 'call', 'other')]
+        if goals and paths.must_pass(g, 0, goals, [puts[0][0].bb]):
+            memo[g.path] = puts[0][1]
+    return memo[g.path]
+
+
 def r_mark(ctx):
     F = ctx.F
     rule = 'R-MARK'
@@ -72,6 +91,15 @@ def r_mark(ctx):
                 ki = key_info(c.arg_term(k))
                 if ki and ki[0] == 'updated':
                     marks.append((c, ki))
+        # a private helper that always writes the mark of its item parameter counts as the mark
+        for c in f.calls():
+            for g in F.resolve_call(c):
+                if g.path == f.path or g.in_test or not g.path.startswith('writer::'):
+                    continue
+                p = mark_helper(F, g, {})
+                if p is not None and p - 1 < len(c.args) and strip(c.arg_term(0))[0] == 'arg' and strip(c.arg_term(0))[1] == 1:
+                    idx = ('field', ('deref', ('arg', 1, 'self')), 'index')
+                    marks.append((c, ('updated', idx, c.arg_term(p - 1))))
         goals = success_goals(f)
         effs = []
         for c, op, k in ws:
